@@ -122,9 +122,32 @@ func renderCodecFacts(repo string) (string, error) {
 		})
 		// anything in the function that assigns to, or conditionally replaces, what is returned shows up
 		// as extra statements: record the statement kinds of the body
+		// — except the plumbing that cannot change the returned fields: definitions of locals, loops that fill
+		// them, `if err != nil { return nil, … }`, the return itself.  (A fingerprint of all statement kinds
+		// proved brittle: extracting the two encoding loops into a helper changed it.)
 		var shape []string
 		for _, st := range fd.Body.List {
-			shape = append(shape, strings.TrimPrefix(fmt.Sprintf("%T", st), "*ast."))
+			switch x := st.(type) {
+			case *ast.AssignStmt:
+				plain := true
+				for _, l := range x.Lhs {
+					if _, ok := l.(*ast.Ident); !ok {
+						plain = false
+					}
+				}
+				if plain {
+					continue
+				}
+			case *ast.RangeStmt, *ast.ReturnStmt:
+				continue
+			case *ast.IfStmt:
+				if x.Init == nil && x.Else == nil && src(fset, x.Cond) == "err != nil" && len(x.Body.List) == 1 {
+					if r, ok := x.Body.List[0].(*ast.ReturnStmt); ok && len(r.Results) == 2 && src(fset, r.Results[0]) == "nil" {
+						continue
+					}
+				}
+			}
+			shape = append(shape, strings.TrimPrefix(fmt.Sprintf("%T", st), "*ast.")+":"+src(fset, st))
 		}
 		hashable = append(hashable, [2]string{"<body>", strings.Join(shape, ",")})
 	}
